@@ -439,6 +439,21 @@ func corrC06(outDir string, seed uint64, tier string, replay string) *report {
 				for _, e := range structuralEdits(h) {
 					judge(e, "structural")
 				}
+				// multi-byte UTF-8 characters in place of two symbols (byte length unchanged), chosen so that the code point
+				// truncated to a byte is the symbol it replaces: U+01xx and U+20xx for a symbol xx -- a check that walks the
+				// text by characters instead of bytes takes them for the symbol
+				for i := 0; i+1 < len(h); i++ {
+					b := h[i]
+					if b < 0x21 || b >= 0x80 {
+						continue
+					}
+					two := string([]byte{0xC4 | b>>6, 0x80 | b&0x3F})
+					judge1(h[:i]+two+h[i+2:], pw, "utf8_lowbyte")
+					if i+2 < len(h) {
+						three := string([]byte{0xE2, 0x80 | b>>6, 0x80 | b&0x3F})
+						judge1(h[:i]+three+h[i+3:], pw, "utf8_lowbyte")
+					}
+				}
 				sweepOK := true
 				for _, e := range fieldSweeps(h) {
 					rc := recognise(s.name, e)
